@@ -7,6 +7,7 @@ usage: chain_driver.py <chains.json> <out.json>"""
 import gc
 import json
 import sys
+import threading
 import types
 import warnings
 
@@ -816,7 +817,82 @@ def other_items():
             if st.frames:
                 bad.append("%s: extract_outermost raised although there are frames" % label)
     pg.close()
+    n += 1
+    bad += overlapping_extractions()
     return n, bad
+
+
+class _Rendezvous:
+    """an item whose unwrapping lets ANOTHER thread get inside an extraction of its own (with other options) and waits
+    until it is there"""
+
+    def __init__(self, gen):
+        self.gen = gen
+        self.other_inside = threading.Event()
+        self.done = threading.Event()
+        self.thread = None
+
+
+class _Holding:
+    def __init__(self, rv):
+        self.rv = rv
+
+
+@stackscope.unwrap_stackitem.register(_Rendezvous)
+def _unwrap_rendezvous(item):
+    if item.thread is None:
+        def second():
+            g = _with_ctx()
+            next(g)
+            stackscope.extract(_Holding(item), with_contexts=False)
+            stackscope.extract(g, with_contexts=False)
+        item.thread = threading.Thread(target=second, daemon=True)
+        item.thread.start()
+        item.other_inside.wait(10)
+    return item.gen
+
+
+@stackscope.unwrap_stackitem.register(_Holding)
+def _unwrap_holding(item):
+    item.rv.other_inside.set()
+    item.rv.done.wait(10)
+    return None
+
+
+class _Ctx:
+    def __enter__(self):
+        return self
+
+    def __exit__(self, *a):
+        return False
+
+
+def _with_ctx():
+    with _Ctx() as c:  # noqa: F841
+        yield 1
+
+
+def overlapping_extractions():
+    """extract_outermost(x) while another thread is inside extract(y, with_contexts=False): x's first frame is still the
+    one extract(x) gives, contexts included"""
+    bad = []
+    g = _with_ctx()
+    next(g)
+    rv = _Rendezvous(g)
+    try:
+        om = stackscope.extract_outermost(rv)
+    except Exception as ex:
+        om = None
+        bad.append("extract_outermost overlapping another thread's extraction raised %r" % (ex,))
+    rv.done.set()
+    if rv.thread is not None:
+        rv.thread.join(10)
+    st = stackscope.extract(g)
+    if om is not None and not same_first(om, st):
+        bad.append("extract_outermost(x), overlapping another thread's extract(y, with_contexts=False), differs from "
+                   "extract(x).frames[0]: contexts %r vs %r" % (om.contexts, st.frames[0].contexts if st.frames else None))
+    g.close()
+    return bad
 
 
 HISTORY = []
